@@ -299,6 +299,12 @@ func (eng *Engine) runTop(c *FnCtx, fn *ssa.Function, fs *FuncSpec) {
 		if i == 0 && fn.Signature.Recv() != nil && v.IsPtr() {
 			c.addFact(Gt(v.L[0], IntT(0)))
 		}
+		if fs != nil && fs.Sweep {
+			switch p.Type().Underlying().(type) {
+			case *types.Pointer, *types.Map, *types.Interface, *types.Signature:
+				c.addFact(Not(Eq(v.L[0], IntT(0))))
+			}
+		}
 		args = append(args, v)
 	}
 	f := &frame{c: c, fn: fn, spec: fs, top: true, prefix: ""}
